@@ -712,3 +712,143 @@ pub fn n_c08_element() {
         }
     }
 }
+
+// ---------------------------------------------------------------------------------------------------------
+// parse_element on token sequences (C01 / C02 / C08): replay through the PUBLIC loader on the real specification.
+// The mini schema of the executor mirrors the real one for AUTOSAR > AR-PACKAGES > AR-PACKAGE > SHORT-NAME / CATEGORY / AR-PACKAGES.
+// ---------------------------------------------------------------------------------------------------------
+#[cfg(not(kani))]
+const N_TOKENS: [&[u8]; 11] = [b"<AR-PACKAGES>", b"</AR-PACKAGES>", b"<AR-PACKAGE>", b"</AR-PACKAGE>", b"<SHORT-NAME>", b"</SHORT-NAME>", b"<CATEGORY>", b"</CATEGORY>", b"", b"<!--c-->", b"</AUTOSAR>"];
+
+/// independent reading of the token sequence: Some(canonical text of the tree) when it is a valid document of the mini schema
+#[cfg(not(kani))]
+fn n_ref_doc(toks: &[u8], texts: &[u8]) -> Option<String> {
+    fn kind_of_start(t: u8) -> Option<usize> { match t { 0 => Some(1), 2 => Some(2), 4 => Some(3), 6 => Some(4), _ => None } }
+    fn kind_of_end(t: u8) -> Option<usize> { match t { 1 => Some(1), 3 => Some(2), 5 => Some(3), 7 => Some(4), 10 => Some(0), _ => None } }
+    const NAMES: [&str; 5] = ["AUTOSAR", "AR-PACKAGES", "AR-PACKAGE", "SHORT-NAME", "CATEGORY"];
+    fn allowed(parent: usize, k: usize) -> bool { matches!((parent, k), (0, 1) | (1, 2) | (2, 3) | (2, 4) | (2, 1)) }
+    fn single(parent: usize, k: usize) -> bool { matches!((parent, k), (0, 1) | (2, 3) | (2, 4) | (2, 1)) }
+    struct St<'a> { toks: &'a [u8], texts: &'a [u8], pos: usize, ti: usize }
+    fn parse(st: &mut St, kind: usize, out: &mut String) -> Option<()> {
+        let mut seen = [false; 5];
+        let mut pending_comment = false;
+        loop {
+            if st.pos >= st.toks.len() { return None; }
+            let t = st.toks[st.pos];
+            st.pos += 1;
+            if let Some(k) = kind_of_start(t) {
+                if !allowed(kind, k) { return None; }
+                if single(kind, k) { if seen[k] { return None; } seen[k] = true; }
+                out.push('(');
+                out.push_str(NAMES[k]);
+                if pending_comment { out.push_str(" #c"); }
+                pending_comment = false;
+                parse(st, k, out)?;
+                out.push(')');
+            } else if let Some(k) = kind_of_end(t) {
+                if k != kind { return None; }
+                if kind == 2 && !seen[3] { return None; }
+                return Some(());
+            } else if t == 8 {
+                // adjacent text tokens are one run of character data
+                let mut run = std::vec![st.texts[st.ti]];
+                st.ti += 1;
+                while st.pos < st.toks.len() && st.toks[st.pos] == 8 {
+                    run.push(st.texts[st.ti]);
+                    st.ti += 1;
+                    st.pos += 1;
+                }
+                let mut s0 = 0;
+                let mut e0 = run.len();
+                while s0 < e0 && run[s0].is_ascii_whitespace() { s0 += 1; }
+                while e0 > s0 && run[e0 - 1].is_ascii_whitespace() { e0 -= 1; }
+                let val = &run[s0..e0];
+                if val.is_empty() { continue; }
+                if kind != 3 && kind != 4 { return None; }
+                if !val[0].is_ascii_alphabetic() || !val[1..].iter().all(|b| b.is_ascii_alphanumeric() || *b == b'_') { return None; }
+                out.push_str(" \"");
+                out.push_str(std::str::from_utf8(val).ok()?);
+                out.push('"');
+            } else {
+                pending_comment = true;
+            }
+        }
+    }
+    let mut st = St { toks, texts, pos: 0, ti: 0 };
+    let mut out = String::from("(AUTOSAR");
+    parse(&mut st, 0, &mut out)?;
+    out.push(')');
+    while st.pos < toks.len() {
+        let t = toks[st.pos];
+        st.pos += 1;
+        if t == 9 { continue; }
+        if t == 8 { let b = texts[st.ti]; st.ti += 1; if b.is_ascii_whitespace() { continue; } }
+        return None;
+    }
+    Some(out)
+}
+
+#[cfg(not(kani))]
+fn n_canon(e: &crate::Element, out: &mut String) {
+    out.push('(');
+    out.push_str(e.element_name().to_str());
+    if e.comment().is_some() { out.push_str(" #"); out.push_str(&e.comment().unwrap()); }
+    for c in e.content() {
+        match c {
+            crate::ElementContent::Element(sub) => n_canon(&sub, out),
+            crate::ElementContent::CharacterData(cd) => { out.push_str(" \""); out.push_str(&cd.to_string()); out.push('"'); }
+        }
+    }
+    out.push(')');
+}
+
+#[cfg(not(kani))]
+pub fn n_parse_element_doc() {
+    let ntok = vk::any_usize();
+    let mut toks = std::vec::Vec::new();
+    for _ in 0..ntok { toks.push(vk::any_u8()); }
+    let ntext = toks.iter().filter(|t| **t == 8).count();
+    let mut texts = std::vec::Vec::new();
+    for _ in 0..ntext { texts.push(vk::any_u8()); }
+    let _fv = vk::any_u32();
+    let _mask = vk::any_u32();
+    let aspect = vk::any_u8();
+    let mut doc: std::vec::Vec<u8> = br#"<?xml version="1.0" encoding="utf-8"?><AUTOSAR xsi:schemaLocation="http://autosar.org/schema/r4.0 AUTOSAR_00050.xsd" xmlns="http://autosar.org/schema/r4.0" xmlns:xsi="http://www.w3.org/2001/XMLSchema-instance">"#.to_vec();
+    let mut ti = 0;
+    for t in &toks {
+        assert!((*t as usize) < N_TOKENS.len(), "VK_REPLAY_SHAPE");
+        if *t == 8 { doc.push(texts[ti]); ti += 1; } else { doc.extend_from_slice(N_TOKENS[*t as usize]); }
+    }
+    let lines = 1 + doc.iter().filter(|b| **b == b'\n').count();
+    let ms = crate::AutosarModel::new();
+    let rs = ms.load_buffer(&doc, "s.arxml", true);
+    let ml = crate::AutosarModel::new();
+    let rl = ml.load_buffer(&doc, "l.arxml", false);
+    let reference = n_ref_doc(&toks, &texts);
+    if aspect == 2 {
+        for r in [&rs, &rl] {
+            if let Err(AutosarDataError::ParserError { line, .. } | AutosarDataError::LexerError { line, .. }) = r {
+                vk_check!(*line >= 1 && *line <= lines, "error names a line outside the document");
+            }
+        }
+    } else if aspect == 8 {
+        match (&rs, &rl) {
+            (Ok(_), Ok((_, w))) => vk_check!(w.is_empty(), "strict accepts a document that lenient warns about"),
+            (Ok(_), Err(_)) => vk_check!(false, "strict accepts a document that lenient rejects"),
+            (Err(es), Ok((_, w))) => {
+                vk_check!(!w.is_empty(), "lenient silently accepts a document that strict rejects");
+                vk_check!(err_kind(es) == err_kind(&w[0]), "strict error is not the first lenient warning");
+            }
+            (Err(_), Err(_)) => {}
+        }
+        if rs.is_ok() {
+            vk_check!(reference.is_some(), "strict loading accepts a document that violates the schema");
+        }
+    } else {
+        if let (Ok(_), Some(want)) = (&rs, &reference) {
+            let mut got = String::new();
+            n_canon(&ms.root_element(), &mut got);
+            vk_check!(&got == want, "the loaded tree differs from the document");
+        }
+    }
+}
